@@ -188,6 +188,12 @@ impl Client {
         }
     }
 
+    /// Everything the server emitted before this call has been received when it returns: the
+    /// main loop writes outgoing messages in order, so the response to a fresh request comes last.
+    pub fn barrier(&mut self, uri: &str) -> bool {
+        self.request("textDocument/foldingRange", json!({"textDocument": {"uri": uri}}), Duration::from_secs(60)).is_ok()
+    }
+
     pub fn initialize(&mut self) -> bool {
         let r = self.request("initialize", json!({"processId": null, "rootUri": null, "capabilities": {}}), Duration::from_secs(20));
         self.notify("initialized", json!({}));
